@@ -308,9 +308,11 @@ fn oracle(slot: &Slot, world: &World, at: &dyn Fn(&str) -> String, foreign: bool
         let mut fams: Vec<usize> = world.wakers.iter().map(|x| x.1).collect();
         fams.sort();
         fams.dedup();
-        // every live family holds at least one owned waker of the other module, every live handle at most one; none when
-        // no handle is left (whether clones are shared per family or made per handle is the implementation's choice)
-        if world.pending.is_empty() && (frefs < fams.len() as i64 || frefs > world.wakers.len() as i64) {
+        // while any handle is alive at least one owned waker of the other module is held, every live handle holds at most
+        // one; none when no handle is left (whether clones are shared per poll, per family or made per handle is the
+        // implementation's choice)
+        let floor: i64 = if world.wakers.is_empty() { 0 } else { 1 };
+        if world.pending.is_empty() && (frefs < floor || frefs > world.wakers.len() as i64) {
             return Err((if frefs > world.wakers.len() as i64 { "waker:leak" } else { "waker:released_early" }.into(), at(&format!("{} retained waker(s) in {} famil(ies) are alive, the other module counts {} owned waker(s) handed out and not released", world.wakers.len(), fams.len(), frefs))));
         }
         return Ok(());
